@@ -32,7 +32,7 @@ MANIFEST = {
             "original, glyph names unchanged for both readers, tags back to the same pair, back-mapping a function).",
     "note": "Trusted: TLC, the byte walkers/builders of harness/internal/namex, golang.org/x/text's Mac OS Roman table and "
             "golang.org/x/image's standard glyph names (re-derived each run and compared with spec/NameCodecData.tla). "
-            "Empty strings count as absent; an Info is in the domain when its strings need <= 65535 storage bytes; at most "
+            "Empty strings count as absent; an Info must survive when every storage order keeps offsets in 16 bits, beyond that Encode may refuse or be faithful; at most "
             "65278 custom glyph names; the library's language-id tables are read through Decode (a sample of ids is checked "
             "against the OpenType chapter); Tables.Choose is not covered.",
     "technique": "TLA+ model checking (TLC) of NameCodec.tla + TLC-generated inputs replayed into the real code + trace "
@@ -91,9 +91,18 @@ def _describe(case, ev):
     if k == "names":
         brief = {a: b for a, b in ev.items() if a not in ("storage", "recs", "dec", "info")}
         plats = sorted({e["p"] for e in case["info"]})
+        pays = [len(e["s"]) if e["p"] == 1 else 2 * sum(2 if c >= 0x10000 else 1 for c in e["s"]) for e in case["info"]]
+        pays = [x for x in pays if x > 0]
+        if pays and sum(pays) - min(pays) > 65535 and ev["ev"] == "nencode":
+            recs = ev.get("recs") or []
+            what = ("name.Info whose strings need %d bytes of storage (sizes %s): some string must start beyond the 16-bit "
+                    "offset field; Info.Encode neither refuses nor writes a faithful table (event %s; records "
+                    "[platform, encoding, language, id, length, offset] %s)" % (sum(pays), pays[:6], ev["ev"], recs[:4]))
+            return what, {"part": "names", "kind": "field-overflow", "event": ev["ev"]}
         what = ("name.Info does not survive Encode/Decode: event %s of a case with %d string(s) on platform(s) %s is not "
-                "explained by NameCodecTrace (%s); first entries %s" % (
-                    ev["ev"], len(case["info"]), plats, json.dumps(brief)[:300], json.dumps(case["info"][:3])[:400]))
+                "explained by NameCodecTrace (%s); storage bytes per string %s (total %d); first entries %s" % (
+                    ev["ev"], len(case["info"]), plats, json.dumps(brief)[:300], pays[:8], sum(pays),
+                    json.dumps([dict(e, s=e["s"][:12]) for e in case["info"][:3]])[:400]))
         return what, {"part": "names", "event": ev["ev"], "platforms": plats, "panic": bool(ev.get("panic"))}
     if k == "nraw":
         what = ("codec law broken through name.Decode/Encode: platform %d bytes %s decoded to %s (found=%s) and encoded "
@@ -271,8 +280,9 @@ def _model(ctx, cfg, label, timeout=900, files=None, expect_violation=None):
 def run(ctx):
     ctx.assumptions += [
         "the empty string means 'not set' in name.Table: empty strings are not expected to survive",
-        "a name.Info is in the domain when its strings need at most 65535 bytes of storage without sharing "
-        "(16-bit offsets); Macintosh strings are drawn from the Mac OS Roman repertoire only",
+        "a name.Info must survive when every storage order keeps all offsets in 16 bits (total storage minus the "
+        "smallest string <= 65535 bytes, no sharing assumed); beyond that Encode may refuse (panic) or write a "
+        "faithful table, never a wrapped offset; Macintosh strings are drawn from the Mac OS Roman repertoire only",
         "a glyph-name list is in the domain of post format 2 when it has at most 65278 non-standard names "
         "(indices 258..65535) of at most 255 bytes each",
         "Mac OS Roman = Unicode consortium ROMAN.TXT as shipped in golang.org/x/text; standard glyph names as in "
@@ -284,7 +294,9 @@ def run(ctx):
     _check_data(ctx, binp)
 
     # 1. the design
-    _model(ctx, "NameCodecName.cfg", "NameCodec name machine (4 records, all placements)")
+    _model(ctx, "NameCodecName.cfg", "NameCodec name machine (4 records, all placements, 3-bit offset/length fields)")
+    _model(ctx, "NameCodecNameWrap.cfg", "NameCodec name machine, reader adds offset+length in W bits (must fail)",
+           expect_violation="NoPanic")
     _model(ctx, "NameCodecPost.cfg", "NameCodec post machine (lists <= 4)")
     hist_cfg = open(os.path.join(vlib.SPEC_DIR, "NameCodecPostHist.cfg")).read().replace(
         "MaxOps = 4", "MaxOps = %d" % ctx.pick(3, 4))
@@ -314,6 +326,9 @@ def run(ctx):
         _model(ctx, "NCy.cfg", "NameCodec post machine (lists <= 5)", files={"NCy.cfg": cfg}, timeout=1500)
     ctx.cov["exhaustive"] = True
     ctx.cov["bounds"] = {
+        "name_fields": "offset and length fields of W = 3 bits in the model (FieldMax = 7, storage up to 12 bytes); the real "
+                       "code is driven to W = 16: storage totals 65535..65537, strings ending at 65535/65536/65537/131069, "
+                       "one byte at offset 65535, and three overflow tables",
         "name": "2 Macintosh + 2 Windows records, 4 strings per platform (thorough: +1 Windows record of a second language "
                 "with 3 strings per platform) incl. shared/prefix/suffix/cross-platform-equal encodings, every storage placement",
         "post": "3 standard names, 6 names per glyph, lists <= 4 (5 thorough), every re-use choice; object with history: "
@@ -331,7 +346,7 @@ def run(ctx):
     gens = list(hist.cases) + list(chist.cases)
     for cfg, kw in (("NameCodecGenNames1.cfg", {}), ("NameCodecGenUnits.cfg", {}),
                     ("NameCodecGenPost.cfg", {}),
-                    ("NameCodecGenNames.cfg", {"workers": 1, "simulate": ctx.pick(1200, 12000), "depth": 20})):
+                    ("NameCodecGenNames.cfg", {"workers": 1, "simulate": ctx.pick(1000, 12000), "depth": 20})):
         files = None
         if cfg == "NameCodecGenPost.cfg" and not ctx.quick():
             files = {"NCg.cfg": open(os.path.join(vlib.SPEC_DIR, cfg)).read().replace("MaxGlyphs = 3", "MaxGlyphs = 4")}
